@@ -226,6 +226,9 @@ func (s *C11Skeleton) SlotIsStmt(i int) bool {
 	return i >= 0 && s.slots[i].kind == 'S' && !s.slots[i].forInit
 }
 
+// SlotIsForInit reports whether slot i is the initialiser of a `for` (it always declares with `var`).
+func (s *C11Skeleton) SlotIsForInit(i int) bool { return i >= 0 && s.slots[i].forInit }
+
 var C11DeclKindNames = []string{"let", "var", "const"}
 var C11UseKindNames = []string{"value", "store"}
 
